@@ -105,6 +105,9 @@ class ArithOptimal(Contract):
                             shapes += [([2], [2]), ([2], [])]
                         for shx, shy in shapes:
                             yield dict(op=op, x=list(x), y=list(y), method=method, shx=shx, shy=shy)
+                        # integer-typed operands (vdtype int: objects built from ints with n_frac <= 0); the value method computes on them
+                        if method == 'repr' and (x[2] <= 0 or y[2] <= 0):
+                            yield dict(op=op, x=list(x), y=list(y), method=method, shx=[], shy=[], vint=True)
 
     def inputs(self, cfg, D):
         sx, wx, fx = cfg['x']; sy, wy, fy = cfg['y']
@@ -116,9 +119,11 @@ class ArithOptimal(Contract):
     def run(self, cfg, P, inp):
         sx, wx, fx = cfg['x']; sy, wy, fy = cfg['y']
         x = make_fxp(P, sx, wx, fx, codes=inp['cx'], shape=tuple(cfg['shx']), cfg={'op_method': cfg['method'], 'rounding': 'around'},
-                     status={'inaccuracy': inp['ix'], 'overflow': inp.get('ox', False), 'underflow': inp.get('ux', False)}, vdtype=float)
+                     status={'inaccuracy': inp['ix'], 'overflow': inp.get('ox', False), 'underflow': inp.get('ux', False)},
+                     vdtype=int if (cfg.get('vint') and fx <= 0) else float)
         y = make_fxp(P, sy, wy, fy, codes=inp['cy'], shape=tuple(cfg['shy']), cfg={'overflow': 'wrap'},
-                     status={'inaccuracy': inp['iy'], 'overflow': inp.get('oy', False), 'underflow': inp.get('uy', False)}, vdtype=float)
+                     status={'inaccuracy': inp['iy'], 'overflow': inp.get('oy', False), 'underflow': inp.get('uy', False)},
+                     vdtype=int if (cfg.get('vint') and fy <= 0) else float)
         bx, by = dict(x.__dict__), dict(y.__dict__)
         vx0, vy0 = list(elems(x.val)), list(elems(y.val))
         z = apply_op(cfg['op'], x, y)
@@ -215,6 +220,9 @@ class ArithImposed(Contract):
                             modes = MODES if tier == 'thorough' and x[1] <= 4 and y[1] <= 4 else [MODES[k % len(MODES)]]
                             for rule, mode in modes:
                                 yield dict(op=op, x=list(x), y=list(y), policy=policy, target=None, method=method, rule=rule, mode=mode)
+                            if method == 'repr' and (x[2] <= 0 or y[2] <= 0) and policy != 'largest':
+                                rule, mode = MODES[(k + 1) % len(MODES)]
+                                yield dict(op=op, x=list(x), y=list(y), policy=policy, target=None, method=method, rule=rule, mode=mode, vint=True)
         # out= and out_like= targets
         tg = [(True, 8, 4), (False, 8, 8), (True, 3, 0), (True, 12, 6), (False, 2, 1), (True, 16, 12)]
         k = 0
@@ -247,8 +255,8 @@ class ArithImposed(Contract):
         if tgt is not None:
             out = make_fxp(P, tgt[1], tgt[2], tgt[3], codes=[0], shape=(), cfg=gov, status=inp.get('st_out'), vdtype=float)
             xcfg['op_out' if tgt[0] == 'out' else 'op_out_like'] = out
-        x = make_fxp(P, sx, wx, fx, codes=inp['cx'], shape=(), cfg=xcfg, status={'inaccuracy': inp['ix']}, vdtype=float)
-        y = make_fxp(P, sy, wy, fy, codes=inp['cy'], shape=(), cfg=dict(other), status={'inaccuracy': inp['iy']}, vdtype=float)
+        x = make_fxp(P, sx, wx, fx, codes=inp['cx'], shape=(), cfg=xcfg, status={'inaccuracy': inp['ix']}, vdtype=int if (cfg.get('vint') and fx <= 0) else float)
+        y = make_fxp(P, sy, wy, fy, codes=inp['cy'], shape=(), cfg=dict(other), status={'inaccuracy': inp['iy']}, vdtype=int if (cfg.get('vint') and fy <= 0) else float)
         bx, by = dict(x.__dict__), dict(y.__dict__)
         vx0, vy0 = list(elems(x.val)), list(elems(y.val))
         z = apply_op(cfg['op'], x, y)
@@ -416,6 +424,9 @@ class ArithWide(ArithOptimal):
                     if skip_unsafe and not f7_safe(op, x, y):
                         continue
                     yield dict(op=op, x=list(x), y=list(y), method='raw', shx=[], shy=[])
+                    if 'F21' not in open_findings() and k % 5 == 0:
+                        # open finding F21: the value ('repr') method computes on float64 / int64 values
+                        yield dict(op=op, x=list(x), y=list(y), method='repr', shx=[], shy=[], vint=bool(k % 2))
 
     def post(self, cfg, inp, obs):
         out = ArithOptimal.post(self, cfg, inp, obs)
